@@ -445,12 +445,17 @@ fn gen_value(g: &mut Gen, t: &Type) -> Value {
         }
         Type::String(_) => Value::String(gen_string(&mut g.r)),
         Type::ContractName(_) => {
-            let name = match g.r.below(12) { 0 => "a".repeat(95), 1 => "a".repeat(96), 2 => "a.b".into(), 3 => "é".into(), 4 => "a b".into(), _ => gen_ident(&mut g.r, 8) };
+            // the contract part may itself start with / contain / be "init_" (exactly one prefix is stripped), or be empty
+            let name = match g.r.below(18) { 0 => "a".repeat(95), 1 => "a".repeat(96), 2 => "a.b".into(), 3 => "é".into(), 4 => "a b".into(),
+                5 => "init_token".into(), 6 => "init_init_token".into(), 7 => "a_init_b".into(), 8 => "init_".into(), 9 => String::new(),
+                10 => "init_init_".into(), 11 => "xinit_".into(), _ => gen_ident(&mut g.r, 8) };
             json!({ "contract": name })
         }
         Type::ReceiveName(_) => {
-            let c = match g.r.below(12) { 0 => "a".repeat(50), 1 => "a.b".into(), 2 => "ß".into(), _ => gen_ident(&mut g.r, 6) };
-            let f = match g.r.below(12) { 0 => "b".repeat(49), 1 => "b".repeat(50), 2 => "x.y".into(), 3 => "x y".into(), _ => gen_ident(&mut g.r, 6) };
+            let c = match g.r.below(16) { 0 => "a".repeat(50), 1 => "a.b".into(), 2 => "ß".into(), 3 => "init_x".into(), 4 => "init_init_x".into(),
+                5 => "init_".into(), 6 => String::new(), 7 => "a_init_".into(), _ => gen_ident(&mut g.r, 6) };
+            let f = match g.r.below(18) { 0 => "b".repeat(49), 1 => "b".repeat(50), 2 => "x.y".into(), 3 => "x y".into(), 4 => "init_y".into(),
+                5 => "init_init_y".into(), 6 => "..".into(), 7 => ".".into(), 8 => "a..b.".into(), 9 => String::new(), 10 => ".init_".into(), _ => gen_ident(&mut g.r, 6) };
             json!({ "contract": c, "func": f })
         }
         Type::ULeb128(c) => Value::String(gen_uleb_text(&mut g.r, *c)),
